@@ -1,9 +1,9 @@
 SPECIFICATION MCSpec
-CONSTANTS Classes = {1, 2, 3}
-  Codes = {0, 1, 2, 3}
+CONSTANTS Classes = {0, 1, 2, 3}
+  Codes = {0, 3, 7}
   SortedHash = TRUE
   Full = FALSE
-  InitSizes = {4}
+  InitSizes = {2}
   Ptrs = {1}
   Vals = {1}
   SetVals <- NoSet
